@@ -3,7 +3,7 @@ NEXT GNext
 INVARIANT EmitCase
 CHECK_DEADLOCK FALSE
 CONSTANTS
-  NoiseKinds = {"forged"}
+  NoiseKinds = {"forged", "other"}
   MaxSteps = 4
   MaxForged = 1
   DevLostForgets = TRUE
